@@ -59,7 +59,27 @@ def gen_case(rng):
         ops.append(quiesce(rng))
     for _ in range(rng.choice([3, 5, 8, 12, 20])):
         r = rng.random()
-        if r < 0.22:
+        if led.resets < U.NVICTIMS and rng.random() < 0.12:
+            # the class "another call is cancelled while the transport is paused, the resume re-pauses
+            # from inside its flush write, then credit returns"
+            seq = ([] if led.paused and rng.random() < 0.8 else [['p']]) + [['rst']]
+            if rng.random() < 0.3:
+                seq.append(quiesce(rng))
+            seq.append(['rp'] if rng.random() < 0.8 else ['r'])
+            grant = rng.choice([['ws', rng.randrange(n), rng.choice(INC[4:])], ['wc', rng.choice(INC[4:])],
+                                ['iw', rng.choice(IWV[5:])]])
+            if led.valid(grant):
+                seq.append(grant)
+            seq.append(quiesce(rng))
+            for o in seq:
+                led.apply(o)
+                ops.append(o)
+            continue
+        if r < 0.03 and led.resets < U.NVICTIMS:
+            op = ['rst']
+        elif r < 0.06:
+            op = ['rp']
+        elif r < 0.22:
             op = ['ws', rng.randrange(n), rng.choice(INC)]
         elif r < 0.42:
             op = ['wc', rng.choice(INC)]
@@ -119,6 +139,8 @@ class Ledger:
         self.iw = case['iw0']
         self.mf = case['mf0']
         self.paused = False
+        self.resets = 0
+        self.hq = False          # (generation bias only) h2 may hold a queued RST_STREAM
 
     def valid(self, op):
         t = op[0]
@@ -148,6 +170,16 @@ class Ledger:
             self.paused = True
         elif t == 'r':
             self.paused = False
+            self.hq = False
+        elif t == 'rst':
+            self.resets += 1
+            self.hq = self.paused
+        elif t == 'rp':
+            if self.paused:
+                self.paused = self.hq
+                self.hq = False
+        if t in ('ws', 'wc', 'iw', 'mf'):
+            self.hq = False
 
     def data(self, i, size):
         self.sw[i] -= size
@@ -170,11 +202,11 @@ def model_line(case):
 def parse_model(line):
     recs = []
     for part in line.split(';') if line else []:
-        ch, pcs, cw, sws, mf, wr, broken = part.split('|')
+        ch, pcs, cw, sws, mf, wr, broken, tp, hq = part.split('|')
         chunks = [tuple(int(x) for x in c.split(':')) for c in ch.split(',')] if ch else []
         recs.append({'chunks': chunks, 'pcs': pcs, 'cw': int(cw),
                      'sws': [int(x) for x in sws.split(',')] if sws else [], 'mf': int(mf),
-                     'wr': wr == '1', 'broken': broken == '1',
+                     'wr': wr == '1', 'broken': broken == '1', 'paused': tp == '1', 'hq': hq == '1',
                      'outside': 0})     # the model emits only in Run ops (resume's flush writes no DATA)
     return recs
 
@@ -190,7 +222,8 @@ def impl_records(obs):
             chunks.append((i, off.get(i, 0), size))
             off[i] = off.get(i, 0) + size
         out.append({'chunks': chunks, 'pcs': r['pcs'], 'cw': r['cw'], 'sws': r['sws'], 'mf': r['mf'],
-                    'wr': r['wr'], 'broken': False, 'outside': r.get('outside', 0)})
+                    'wr': r['wr'], 'broken': False, 'outside': r.get('outside', 0),
+                    'paused': r['paused'], 'hq': r.get('hq', False)})
     return out
 
 
@@ -255,6 +288,9 @@ def oracle(case, obs):
                                     {'kind': 'stuck-with-credit', 'blocked': p}))
                 else:
                     bad.append(('sender %d ended in state %s' % (i, p), {'kind': 'sender-state', 'pc': p}))
+            if r['wr'] and r['paused']:
+                bad.append(('write_ready is set on a paused transport (back-pressure can no longer suspend '
+                            'the senders)', {'kind': 'write-ready-on-paused-transport'}))
             # back-pressure: once the transport is paused a sender emits at most the one chunk it
             # had already been woken for
             after = r['chunks'] if r.get('paused_before') else (r['chunks'][op[1]:] if op[0] == 'qp' else [])
@@ -284,7 +320,7 @@ def oracle(case, obs):
 
 def canon(recs):
     return [(tuple(r['chunks']), r['pcs'], r['cw'], tuple(r['sws']), r['mf'], r['wr'], r['broken'],
-             r.get('outside', 0))
+             r.get('outside', 0), r.get('paused'), r.get('hq'))
             for r in recs]
 
 
@@ -306,6 +342,9 @@ def check_cases(ctx, res, cases):
         res.count('senders:%d' % n)
         for op in case['ops']:
             res.count('op:' + op[0])
+        toks = [op[0] for op in case['ops']]
+        if any(toks[k] == 'rst' and 'rp' in toks[k + 1:k + 3] for k in range(len(toks))):
+            res.count('case with reset while paused + resume re-pausing in its flush')
         for r in obs['records']:
             if 'U' in r['pcs']:
                 res.count('quiescent with a sender starved of credit')
@@ -324,6 +363,8 @@ def check_cases(ctx, res, cases):
         if obs['records'] and obs['records'][-1]['pcs'] == 'D' * n:
             res.count('case ending with every sender complete')
         res.count('DATA frames', len(obs['frames']))
+        if obs.get('repaused'):
+            res.count('resume_writing re-paused from inside its flush write (RST_STREAM queued)', obs['repaused'])
         res.signatures.add((case['side'], case.get('api', 'data'), n,
                             tuple((r['pcs'], min(len(r['chunks']), 3)) for r in obs['records'])))
         res.sample({'case': case, 'records': [{k: v for k, v in r.items()} for r in obs['records'][:4]]},
@@ -356,7 +397,8 @@ def run(ctx):
                 'stream window 0..2^20, connection window 0..2^20 (a burner stream lowers it), max frame '
                 '16384..2^24-1; 3-20 peer actions (stream/connection WINDOW_UPDATE 1..2^20, '
                 'INITIAL_WINDOW_SIZE up/down incl. 0 and below what was already sent, MAX_FRAME_SIZE, '
-                'pause, resume) applied in batches between FIFO runs to quiescence, 20% of the runs with '
+                'pause, resume, reset_nowait of another open stream (<= 4 per case), resume that re-pauses from inside '
+                'its flush write; 12% of the steps inject [pause, reset, re-pausing resume, credit grant]) applied in batches between FIFO runs to quiescence, 20% of the runs with '
                 'the transport pausing from inside its k-th write; 80% end with ample credit + resume. '
                 'distinct = distinct (side, api, N, sequence of (blocked/done pattern, frames emitted '
                 'capped at 3) per quiescence)')
